@@ -22,7 +22,7 @@ ford = core.setup_env()
 from vf import observe  # noqa: E402
 
 PID = "C06"
-KINDS = ["type", "sub", "func", "var", "generic", "absint"]
+KINDS = ["type", "sub", "func", "var", "generic", "absint", "ctor"]  # ctor: a derived type and the generic interface of the same name
 
 
 # ---------------------------------------------------------------------------------------------
@@ -46,7 +46,7 @@ def build_model(shape_edges, nprov, seed):
                 if rng.random() < 0.75:
                     acc = rng.choice([None, None, "public", "private"])
                     how = rng.choice(["attr", "stmt"]) if acc else None
-                    if k in ("sub", "func", "generic", "absint") and acc:
+                    if k in ("sub", "func", "generic", "absint", "ctor") and acc:
                         how = "stmt"
                     ename = f"{k}{i}x{seed % 997}"
                     if rng.random() < 0.3:
@@ -223,6 +223,11 @@ def render_entity(e, m, lines, contains, stmts):
         stmts.append(f"private :: {sp}")
     elif k == "absint":
         lines += ["abstract interface", f"subroutine {n}(x)", "real, intent(in) :: x", "end subroutine", "end interface"]
+    elif k == "ctor":
+        mk = f"mk_{n}"
+        lines += [f"type :: {n}", "integer :: f", f"end type {n}", f"interface {n}", f"module procedure {mk}", "end interface"]
+        contains += [f"function {mk}(i) result(r)", "integer, intent(in) :: i", f"type({n}) :: r", "r%f = i", f"end function {mk}"]
+        stmts.append(f"private :: {mk}")
 
 
 def render_use(u, mods):
@@ -287,7 +292,7 @@ def render_project(mods, rng, probe_where):
             nlvars = []
             for i, n in enumerate(names):
                 k = cands[n]
-                if k == "type":
+                if k in ("type", "ctor"):
                     contains.append(f"type({cm(n)}) :: pt{i}")
                 elif k == "absint":
                     contains.append(f"procedure({cm(n)}), pointer :: pp{i}")
@@ -301,7 +306,7 @@ def render_project(mods, rng, probe_where):
                     contains.append(f"call {cm(n)}()")
                 elif k == "generic":
                     contains.append(f"call {cm(n)}(1)")
-                elif k == "func":
+                elif k in ("func", "ctor"):
                     contains.append(f"print *, {cm(n)}(1)")
             contains += [f"end subroutine probe_{m['name']}"]
             if probe_where == "nested_use":
@@ -347,7 +352,7 @@ def observe_case(item):
 
     sf.FortranCodeUnit._find_chain_item = rec_find
     cap = observe.Captured()
-    project, cap = observe.parse_and_correlate([item["root"]], cap=cap)
+    project, cap = observe.parse_and_correlate([item["root"]], settings_kw=item.get("settings"), cap=cap)
     res = {}
     tables = {}
     for m in project.modules:
@@ -382,7 +387,8 @@ def case(arg):
         for rank, idx in enumerate(order):
             n = sorted(files)[idx]
             open(os.path.join(root, f"f{rank}_{n}"), "w").write(files[n])
-        st, r = core.run_alone(observe_case, {"root": root, "order": order}, timeout=120)
+        # (`warn: true` only adds diagnostics; it must not change what is imported)
+        st, r = core.run_alone(observe_case, {"root": root, "order": order, "settings": {"warn": True} if seed % 3 == 0 else None}, timeout=120)
     finally:
         shutil.rmtree(base, ignore_errors=True)
     viol = []
@@ -417,7 +423,11 @@ def case(arg):
     for i, n in enumerate(names):
         k = cands[n]
         exp = expected_id(n)
-        if k == "type":
+        if k == "ctor":
+            # both meanings of the name: the type (declaration) and the generic interface (function reference)
+            o1, o2 = res.get(str(("slot", f"pt{i}")), "absent"), calls.get(n, "absent")
+            obs = o1 if o1 == o2 else (o1 if o1 != exp else o2)
+        elif k == "type":
             obs = res.get(str(("slot", f"pt{i}")), "absent")
         elif k == "absint":
             obs = res.get(str(("slot", f"pp{i}")), "absent")
@@ -437,6 +447,19 @@ def case(arg):
                                 "explained_by_per_statement_use_semantics": obs == ps_id},
                          "w": {"name": n, "expected": exp, "observed": obs, "seed": seed, "order": list(order), "files": files,
                                "tables": r["tables"], "parse_order": r["files_order"]}})
+    # the probing scope's own name tables (hooked state): an accessible name is in the table of each kind it stands for
+    tb = r.get("tables") or {}
+    if tb:
+        want = {"type": ["all_types"], "ctor": ["all_types", "all_procs"], "sub": ["all_procs"], "func": ["all_procs"], "generic": ["all_procs"], "absint": ["all_absinterfaces"], "var": ["all_vars"]}
+        for n in names:
+            e = acc.get(n)
+            if e is None:
+                continue
+            for tname in want[e["kind"]]:
+                if n not in tb.get(tname, []):
+                    viol.append({"kf": {"kind": "imported_name_missing_from_scope_table", "entity_kind": e["kind"], "table": tname, "consumer_use_form": use_form_of(n), "probe_where": probe_where,
+                                        "explained_by_per_statement_use_semantics": False},
+                                 "w": {"name": n, "tables": tb, "seed": seed, "order": list(order), "files": files}})
     nontrivial = (feats["reexport"] or feats["rename"]) and ninacc >= 1
     return {"viol": viol, "n_probes": nprobe, "n_inacc": ninacc, "feats": feats, "nontrivial": nontrivial, "hash": core.h([files, list(order)]),
             "sample": {"seed": seed, "shape_edges": sorted(edges), "consumer_source": files[cons["name"] + ".f90"][:1500],
